@@ -33,6 +33,24 @@ pub type PU<'a, I, E> = Boxed<'a, 'a, I, (), Ex<E>>;
 /// A boxed pratt operator.
 pub type POpBox<'a, I, E> = pratt::Boxed<'a, 'a, I, Val, Ex<E>>;
 
+/// `(ExtWrap a)`: an extension parser with a separate check path (`InputRef::parse` / `InputRef::check` of the wrapped parser).
+pub struct ExtW<'a, I: HInput<'a>, E: HErr<'a, I>>(pub P<'a, I, E>);
+
+impl<'a, I: HInput<'a>, E: HErr<'a, I>> Clone for ExtW<'a, I, E> {
+    fn clone(&self) -> Self {
+        ExtW(self.0.clone())
+    }
+}
+
+impl<'a, I: HInput<'a>, E: HErr<'a, I>> chumsky::extension::v1::ExtParser<'a, I, Val, Ex<E>> for ExtW<'a, I, E> {
+    fn parse(&self, inp: &mut InputRef<'a, '_, I, Ex<E>>) -> Result<Val, E> {
+        inp.parse(&self.0)
+    }
+    fn check(&self, inp: &mut InputRef<'a, '_, I, Ex<E>>) -> Result<(), E> {
+        inp.check(&self.0)
+    }
+}
+
 /// The grammar cannot be built for this input kind (result `UNSUPPORTED`); the text says why.
 #[derive(Debug)]
 pub struct Unsupported(pub &'static str);
@@ -502,6 +520,7 @@ impl<'a, I: HInput<'a>, E: HErr<'a, I>> Builder<'a, I, E> {
             }
             G::Boxed(a) => bx(self.g(a)?.boxed()),
             G::NestedIn(a) => I::nested_in(self.g(a)?)?,
+            G::ExtWrap(a) => bx(chumsky::extension::v1::Ext(ExtW(self.g(a)?))),
             G::Pratt(form, atom, ops) => {
                 let atom = self.g(atom)?;
                 let ops: Vec<POpBox<'a, I, E>> = ops.iter().map(|o| self.pop(o)).collect::<Res<_>>()?;
